@@ -84,7 +84,7 @@ def run_policy_eval(facts, rep):
 
     def run(cfg, policy, req_ok, malformed=None, rename=None, params=0):
         ext = ("struct", "RustExtension", {"crate_name": "ext-lib", "version": "1.0" if malformed != "version" else "bad",
-                                           "path": {"path": "other::Thing", "path-prefix": "ext_lib_extra::Thing", "path-nosep": "ext_lib", "path-unparsable": "ext_lib::Thi ng"}.get(malformed, "ext_lib::Thing"), "parameters": [("json", "p%d" % i_) for i_ in range(params)]})
+                                           "path": {"path": "other::Thing", "path-prefix": "ext_lib_extra::Thing", "path-nosep": "ext_lib", "path-unparsable": "ext_lib::Thi ng", "path-repeats": "ext_lib::ext_lib::my_ext_lib::Thing"}.get(malformed, "ext_lib::Thing"), "parameters": [("json", "p%d" % i_) for i_ in range(params)]})
         crates = {}
         if cfg is not None:
             crates["ext-lib"] = ("struct", "CrateSpec", {"version": cfg, "rename": mr.some(rename) if rename else mr.NONE})
@@ -139,6 +139,13 @@ def run_policy_eval(facts, rep):
                     bad = "with the crate renamed to `new-name` the external path is `%s` (documented: the first segment is replaced by the rename's identifier, `::new_name::Thing`)" % path
                 elif ids != [("id", ("json", "p0")), ("id", ("json", "p1"))]:
                     bad = "the declared type parameters are not converted and applied in order (got %r)" % (ids,)
+            if not bad:
+                # only the *first* segment is the crate: a later segment that looks like it is left alone
+                r_ = run(ANY, "Generate", True, malformed="path-repeats", rename="new-name")
+                n += 1
+                got_ = r_[1][1] if isinstance(r_, tuple) and r_[0] == "Some" and isinstance(r_[1], tuple) else r_
+                if got_ != "::new_name::ext_lib::my_ext_lib::Thing":
+                    bad = "with the crate renamed to `new-name` the path `ext_lib::ext_lib::my_ext_lib::Thing` becomes `%s` (documented: only the first segment is replaced, `::new_name::ext_lib::my_ext_lib::Thing`)" % (got_,)
             r_ = run(ANY, "Generate", True)
             if not bad and not (isinstance(r_, tuple) and r_[0] == "Some" and r_[1][1] == "::ext_lib::Thing"):
                 bad = "without a rename the external path is `%s` (documented `::ext_lib::Thing`)" % (r_[1][1] if isinstance(r_, tuple) and r_[0] == "Some" else r_,)
